@@ -31,41 +31,41 @@ theorem walkFn_some {f : CFn} {g : Fn} (h : walkFn f = some g) :
     exact ⟨by simpa using hne, h.symm⟩
 
 theorem walkItems_heads : ∀ (items : Items) (as : List AItem), walkItems items = some as →
-    (∀ d, ∀ rest, items = .decl d rest → True) → as.length = items.heads.length := by
+    as.length = items.heads.length := by
   intro items
   induction items with
-  | nil => intro as h _; simp only [walkItems, Option.some.injEq] at h; subst h; rfl
+  | nil => intro as h; simp only [walkItems, Option.some.injEq] at h; subst h; rfl
   | rule r rest ih =>
-    intro as h _
+    intro as h
     simp only [walkItems] at h
     split at h
     · rename_i a as' _ h2
       simp only [Option.some.injEq] at h; subst h
-      simp [Items.heads, ih as' h2 (fun _ _ _ => trivial)]
+      simp [Items.heads, ih as' h2]
     · simp at h
   | decl d rest ih =>
-    intro as h _
+    intro as h
     simp only [walkItems] at h
     split at h
     · rename_i a as' _ h2
       simp only [Option.some.injEq] at h; subst h
-      simp [Items.heads, ih as' h2 (fun _ _ _ => trivial)]
+      simp [Items.heads, ih as' h2]
     · simp at h
   | lit l rest ih =>
-    intro as h _
+    intro as h
     simp only [walkItems] at h
     split at h
     · rename_i as' h2
       simp only [Option.some.injEq] at h; subst h
-      simp [Items.heads, ih as' h2 (fun _ _ _ => trivial)]
+      simp [Items.heads, ih as' h2]
     · simp at h
   | sec n body rest _ ihr =>
-    intro as h _
+    intro as h
     simp only [walkItems] at h
     split at h
     · rename_i b as' _ h2
       simp only [Option.some.injEq] at h; subst h
-      simp [Items.heads, ihr as' h2 (fun _ _ _ => trivial)]
+      simp [Items.heads, ihr as' h2]
     · simp at h
 
 end DaeVerif.C17
